@@ -123,3 +123,15 @@ contract(DISC + "Discover._get_device#wellformed",
                   "type_from_the_name": "result is None or (isinstance(result, AirConditioner) == (int(name.decode().split('_')[1], 16) == 0xAC))",
                   "lan_targets_the_device": "result is None or (result._lan._ip == ip and result._lan._port == port and result._lan._device_id == device_id)"},
          notes="C17 at device level: the object handed to the user carries exactly the advertised identity (None only when the text fields do not parse)")
+
+
+from pyvc.dsl import has_own
+
+contract(DISC + "_DiscoverProtocol.__init__",
+         params={"self": "new:" + DISC + "_DiscoverProtocol", "target": "str", "discovery_packets": "int[0,16]", "interface": "opt:str"},
+         modifies=["self.*"],
+         raises={},
+         ensures={"own_duplicate_filter_per_run": "has_own(self, '_discovered_ips') and has_own(self, 'tasks')",
+                  "starts_empty": "len(self._discovered_ips) == 0 and len(self.tasks) == 0",
+                  "settings": "self._target == target and self._discovery_packets == discovery_packets"},
+         notes="C18: the de-duplication state belongs to one discovery run (a new protocol object per run starts with empty sets of its own)")
